@@ -37,8 +37,15 @@ type step struct {
 }
 
 type scenario struct {
-	Steps  []step `json:"steps"`
-	Hazard bool   `json:"hazard"`
+	Steps   []step   `json:"steps"`
+	Hazard  bool     `json:"hazard"`
+	Rejects []string `json:"rejects"` // contents the callback rejects
+}
+
+// script: file operations the scenario places inside the window of one callback
+type script struct {
+	pre  []step // after the callback started, before it reads the file
+	post []step // after it read the file, before it returns
 }
 
 func body(label string) []byte { return []byte("config: " + label + "\n") }
@@ -89,6 +96,48 @@ type run struct {
 	armed      bool
 	atFire     int // reconciles seen when the debounce last fired
 	path       string
+	dir        string
+	script     *script
+	cbDone     int
+	pending    int // notifications queued by the environment, not yet delivered
+	lastOpRec  int // reconciles seen when the last file operation ended
+	tmpN       int
+}
+
+// perform does one file operation of the scenario (from the driver or from inside the callback).
+func (r *run) perform(s step) {
+	r.emit(tracefmt.Rec{"ev": "op.begin", "kind": s.Kind, "c": s.C})
+	switch s.Kind {
+	case "write": // in place: truncate, then write
+		if err := os.WriteFile(r.path, body(s.C), 0o600); err != nil {
+			panic(err)
+		}
+	case "replace": // atomic replacement
+		r.mu.Lock()
+		r.tmpN++
+		tmp := filepath.Join(r.dir, fmt.Sprintf("config.yml.tmp%d", r.tmpN))
+		r.mu.Unlock()
+		if err := os.WriteFile(tmp, body(s.C), 0o600); err != nil {
+			panic(err)
+		}
+		if err := os.Rename(tmp, r.path); err != nil {
+			panic(err)
+		}
+	case "delete":
+		if err := os.Remove(r.path); err != nil && !os.IsNotExist(err) {
+			panic(err)
+		}
+	}
+	r.emit(tracefmt.Rec{"ev": "op.end"})
+	r.mu.Lock()
+	r.lastOpRec = r.reconciles
+	switch s.Fate {
+	case "deliver":
+		r.pending = min(r.pending+1, 2)
+	case "dup":
+		r.pending = 2
+	}
+	r.mu.Unlock()
 }
 
 func (r *run) now() int { return int(time.Since(r.t0) / time.Millisecond) }
@@ -173,7 +222,7 @@ func execute(dir string, sc scenario, interval time.Duration) result {
 	if err := os.WriteFile(path, body(init0), 0o600); err != nil {
 		panic(err)
 	}
-	r := &run{t0: time.Now(), path: path}
+	r := &run{t0: time.Now(), path: path, dir: dir}
 	r.cond = sync.NewCond(&r.mu)
 	runs.Store(path, r)
 	defer runs.Delete(path)
@@ -182,8 +231,21 @@ func execute(dir string, sc scenario, interval time.Duration) result {
 	defer cancel()
 	debounce := verifexport.ReloadDebounce
 	r.emit(tracefmt.Rec{"ev": "reset", "init": init0, "interval": int(interval / time.Millisecond),
-		"debounce": int(debounce / time.Millisecond), "hazard": sc.Hazard})
+		"debounce": int(debounce / time.Millisecond), "hazard": sc.Hazard, "rejects": append([]string{}, sc.Rejects...)})
+	rejects := map[string]bool{}
+	for _, c := range sc.Rejects {
+		rejects[c] = true
+	}
 	cb := func() error {
+		r.mu.Lock()
+		sp := r.script
+		r.script = nil
+		r.mu.Unlock()
+		if sp != nil {
+			for _, s := range sp.pre {
+				r.perform(s)
+			}
+		}
 		b, err := os.ReadFile(path)
 		read := "missing"
 		if err == nil {
@@ -191,7 +253,20 @@ func execute(dir string, sc scenario, interval time.Duration) result {
 		} else if !os.IsNotExist(err) {
 			read = "other"
 		}
-		r.emit(tracefmt.Rec{"ev": "cb", "read": read})
+		accepted := err == nil && !rejects[read]
+		r.emit(tracefmt.Rec{"ev": "cb", "read": read, "accepted": accepted})
+		if sp != nil {
+			for _, s := range sp.post {
+				r.perform(s)
+			}
+		}
+		r.mu.Lock()
+		r.cbDone++
+		r.cond.Broadcast()
+		r.mu.Unlock()
+		if !accepted {
+			return fmt.Errorf("rejected")
+		}
 		return nil
 	}
 	err := verifexport.ReloadWatch(ctx, path, cb, interval,
@@ -200,47 +275,17 @@ func execute(dir string, sc scenario, interval time.Duration) result {
 		panic(err)
 	}
 	res := result{}
-	pending := 0
-	lastOpReconciles := 0
-	tmpN := 0
-	for _, s := range sc.Steps[1:] {
+	steps := sc.Steps[1:]
+	for i := 0; i < len(steps); i++ {
+		s := steps[i]
 		switch s.A {
 		case "op":
-			r.emit(tracefmt.Rec{"ev": "op.begin", "kind": s.Kind, "c": s.C})
-			switch s.Kind {
-			case "write": // in place: truncate, then write
-				if err := os.WriteFile(path, body(s.C), 0o600); err != nil {
-					panic(err)
-				}
-			case "replace": // atomic replacement
-				tmpN++
-				tmp := filepath.Join(dir, fmt.Sprintf("config.yml.tmp%d", tmpN))
-				if err := os.WriteFile(tmp, body(s.C), 0o600); err != nil {
-					panic(err)
-				}
-				if err := os.Rename(tmp, path); err != nil {
-					panic(err)
-				}
-			case "delete":
-				if err := os.Remove(path); err != nil && !os.IsNotExist(err) {
-					panic(err)
-				}
-			}
-			r.emit(tracefmt.Rec{"ev": "op.end"})
-			r.mu.Lock()
-			lastOpReconciles = r.reconciles
-			r.mu.Unlock()
-			switch s.Fate {
-			case "deliver":
-				pending = min(pending+1, 2)
-			case "dup":
-				pending = 2
-			}
+			r.perform(s)
 		case "ev": // a queued notification arrives now
-			if pending > 0 {
-				pending--
-			}
 			r.mu.Lock()
+			if r.pending > 0 {
+				r.pending--
+			}
 			n := r.reconciles
 			r.mu.Unlock()
 			w.events <- fsnotify.Event{Name: path, Op: fsnotify.Write}
@@ -255,14 +300,56 @@ func execute(dir string, sc scenario, interval time.Duration) result {
 				res.skipped++
 			}
 		case "fire": // the debounce timer expires
+			// if the scenario has the callback start at this expiry, the file operations it places
+			// inside the callback's window are handed to the callback before the timer can expire
+			var sp *script
+			end := i
+			if i+1 < len(steps) && steps[i+1].A == "cbstart" {
+				sp = &script{}
+				read := false
+				for end = i + 2; end < len(steps) && steps[end].A != "cbend"; end++ {
+					switch {
+					case steps[end].A == "cbread":
+						read = true
+					case steps[end].A == "op" && !read:
+						sp.pre = append(sp.pre, steps[end])
+					case steps[end].A == "op":
+						sp.post = append(sp.post, steps[end])
+					}
+				}
+			}
 			r.mu.Lock()
-			n, armed := r.fires, r.armed
+			n, armed, done := r.fires, r.armed, r.cbDone
+			r.script = sp
 			r.mu.Unlock()
-			if !armed || !r.waitFor(debounce+time.Second, func() bool { return r.fires > n }) {
+			fired := armed && r.waitFor(debounce+time.Second, func() bool { return r.fires > n })
+			if !fired {
 				res.skipped++
+			}
+			if sp != nil {
+				// wait for the callback that took the script; if the real loop did not start one
+				// here, the operations still happen, outside any callback
+				took := fired && r.waitFor(time.Second, func() bool { return r.cbDone > done })
+				r.mu.Lock()
+				left := r.script
+				r.script = nil
+				r.mu.Unlock()
+				if !took && left != nil {
+					res.skipped++
+					for _, o := range append(append([]step(nil), left.pre...), left.post...) {
+						r.perform(o)
+					}
+				} else if !took {
+					r.waitFor(5*time.Second, func() bool { return r.cbDone > done })
+				}
+				i = end
 			}
 		}
 	}
+	r.mu.Lock()
+	pending := r.pending
+	lastOpReconciles := r.lastOpRec
+	r.mu.Unlock()
 	for ; pending > 0; pending-- { // notifications still queued arrive at last
 		w.events <- fsnotify.Event{Name: path, Op: fsnotify.Write}
 	}
